@@ -199,3 +199,16 @@ func (c *RecCounter) Inc(labelVals ...string) {
 
 // InstallMetrics installs the recording factory (idempotent, like the real SetMetricFactory).
 func InstallMetrics() { monitoring.SetMetricFactory(RecFactory{}) }
+
+// StrReader is an io.ReadCloser over a symbolic string (request / response bodies).
+// The engine's bufio / io contracts read field S directly.
+type StrReader struct {
+	S      string
+	Closed bool
+}
+
+func (r *StrReader) Read(p []byte) (int, error) {
+	Unsupported("byte-level Read on a symbolic body")
+	return 0, nil
+}
+func (r *StrReader) Close() error { r.Closed = true; return nil }
